@@ -67,6 +67,32 @@ def rule_C12(env):
                 "no choice sequence from the empty stack (within the breadth-first bound) reaches a state where %s is enabled in protocol %d%s" % (
                     k, P, "" if any_true else "; its guard is true on no abstract state at all: the opcode is dead"),
                 PV.op_loc(env, "::can_emit"))
+    # (e) the candidate list: get_valid_opcodes must offer an opcode in at least one state where its guard holds.  The witnesses
+    # above are found on the guards (can_emit leaves); an opcode that get_valid_opcodes never hands to can_emit, or drops after
+    # a true answer (a pre-filter, a skip list), is examined with its real guard: offered in no abstract state = dead.
+    lv = PV.op_loc(env, "::get_valid_opcodes")
+    for ver in sorted(t2):
+        suspects = set()
+        for k in t2[ver]:
+            if k in special:
+                continue
+            for (r, pe) in GA.valid_single(env, ver, k):
+                res.count("C12.e")
+                if pe is not None:
+                    res.add("C12.e", "get_valid_opcodes/ends/P%d" % ver, "get_valid_opcodes does not return normally: %s" % (pe.info,), lv)
+                    break
+                consulted, offered = r
+                if not (consulted and offered):
+                    suspects.add(k)
+        for k in sorted(suspects):
+            if isinstance(tr.get(k), Exception) or not any(lf.can_emit and ver in PV.applicable_protocols(lf, env) for lf in tr.get(k) or []):
+                continue    # no satisfiable guard: reported by C12.b
+            offered, nl, nheld = GA.offered_somewhere(env, ver, k)
+            if not offered:
+                res.add("C12.e", "offered/%s/P%d" % (k, ver),
+                        "protocol %d: get_valid_opcodes never offers %s (%d abstract states examined, its guard holds in %d of them): the candidate list drops it "
+                        "before or after consulting can_emit, so it can never be generated" % (ver, k, nl, nheld), lv)
+    res.floor("C12.e", 250, "get_valid_opcodes leaves (one per protocol and opcode)")
     # (d) every opcode of the row is actually *written* by some enabled emission leaf of that protocol
     # (an arm may delegate the concrete opcode to another table, e.g. the integer family)
     import emission as E
